@@ -29,6 +29,16 @@ class UserAbort(Exception):
         self.pos = pos
 
 
+class UserAbortBase(BaseException):
+    """User code may also raise something that is not an `Exception` (KeyboardInterrupt, SystemExit,
+    GeneratorExit, a library's own BaseException subclass): the call is abandoned all the same."""
+
+    def __init__(self, tag, pos):
+        BaseException.__init__(self, '%s@%s' % (tag, pos))
+        self.tag = tag
+        self.pos = pos
+
+
 # ------------------------------------------------------------------------------- registry
 
 def _ours(name):
@@ -60,9 +70,10 @@ def isolated_registry():
 # ------------------------------------------------------------------------------- user-code seam
 
 class Frame:
-    __slots__ = ('script', 'path', 'fired', 'nested', 'rec')
+    __slots__ = ('script', 'path', 'fired', 'nested', 'rec', 'kind')
 
-    def __init__(self, script, path):
+    def __init__(self, script, path, kind='parse'):
+        self.kind = kind
         self.script = script or {}
         self.path = path
         self.fired = []        # [tag, pos, kind] in firing order
@@ -102,10 +113,20 @@ def _dispatch(kind, tag, pos, v):
         if act == 'abort':
             env.count('user_abort')
             raise UserAbort(tag, pos)
+        if act == 'abort_base':
+            env.count('user_abort')
+            env.count('user_abort_base_exception')
+            raise UserAbortBase(tag, pos)
+        if act == 'gc':
+            # a collection in the middle of a call (finalises generators of abandoned calls)
+            _collect(env)
+            env.count('gc_inside_callback')
         if isinstance(act, dict) and 'nest' in act:
             if env.allow_nest and len(c.stack) < 3:
                 env.count('reenter')
                 sub = act['nest']
+                if fr.kind == 'compile':
+                    env.count('construction_calls_back:nested_' + sub['op'])
                 out = run_op(env, c, sub, fr.path + ('%s@%s' % (tag, pos),))
                 fr.nested.append(out)
         if act == 'false' and kind == 'p':
@@ -135,7 +156,59 @@ def hookp(tag, text, pos, v):
 def envprobe():
     """What user code can read of the interpreter-wide environment (inline Python is ordinary
     Python: a callback may recurse, so the recursion limit is part of what decides its outcome)."""
-    return ['env', sys.getrecursionlimit(), round(sys.getswitchinterval(), 6)]
+    return ['env', sys.getrecursionlimit(), round(sys.getswitchinterval(), 6), sys.gettrace() is None,
+            sys.getprofile() is None, threading.stack_size()]
+
+
+_PRISTINE_ENV = (sys.getrecursionlimit(), sys.getswitchinterval(), threading.stack_size())
+
+
+@contextmanager
+def pristine_interpreter_settings():
+    """Reference executions ("the same operation executed alone") see the interpreter-wide settings of
+    a process in which nothing else has run, whatever the simulated run left behind."""
+    now = (sys.getrecursionlimit(), sys.getswitchinterval(), threading.stack_size())
+    if now == _PRISTINE_ENV:
+        yield
+        return
+    sys.setrecursionlimit(_PRISTINE_ENV[0])
+    sys.setswitchinterval(_PRISTINE_ENV[1])
+    try:
+        threading.stack_size(_PRISTINE_ENV[2])
+    except Exception:
+        pass
+    try:
+        yield
+    finally:
+        sys.setrecursionlimit(max(now[0], 50))
+        sys.setswitchinterval(now[1])
+        try:
+            threading.stack_size(now[2])
+        except Exception:
+            pass
+
+
+def _collect(env):
+    sim = env.sim
+    cur = None
+    if sim is not None:
+        cur, sim.cur = sim.cur, None      # mute the step clock: finalisers are not client steps
+    try:
+        gc.collect()
+    finally:
+        if sim is not None:
+            sim.cur = cur
+    env.count('gc')
+
+
+def install_builtin_seam():
+    """Python sections of a grammar run while Grammar() executes the generated module, i.e. before the
+    harness can arm the module: they reach the user-code seam through a builtin name."""
+    import builtins
+    builtins.vx_hook = hook
+
+
+install_builtin_seam()
 
 
 def arm(module):
@@ -173,6 +246,8 @@ class Env:
         self.sim = None
         self.last_raw = {}               # task id -> raw result object of its last parse (for scramble)
         self.last_mod = {}               # task id -> module of its last parse (for postprocess)
+        self.last_text = {}              # task id -> text object of its last parse (when the next call re-uses it)
+        self.shared_texts = {}           # value -> the one text object all clients pass for it
 
     def count(self, k, n=1):
         self.counters[k] = self.counters.get(k, 0) + n
@@ -236,6 +311,40 @@ def fresh_text(text):
     return (text + ' ')[:-1] if text else ''.join([])
 
 
+def _text_object(env, task, op):
+    """Usually a new object per call.  'prev': the very object this client passed to its previous call
+    (same value); 'shared': one object per value for all clients of the run (a constant of the
+    application) -- a cache keyed by the identity of the text then sees hits."""
+    mode = op.get('textobj')
+    tid = task.i if task is not None else None
+    text = None
+    if mode == 'prev':
+        prev = env.last_text.get(tid)
+        if prev is not None and _same_value(prev, op['text']):
+            text = prev
+            env.count('same_text_object_as_previous_call')
+    elif mode == 'shared':
+        k = json.dumps(op['text'])
+        text = env.shared_texts.get(k)
+        if text is None:
+            text = env.shared_texts[k] = fresh_text(op['text'])
+        else:
+            env.count('text_object_shared_between_calls')
+    if text is None:
+        text = fresh_text(op['text'])
+    if op.get('keep_text'):
+        env.last_text[tid] = text
+    else:
+        env.last_text.pop(tid, None)
+    return text
+
+
+def _same_value(obj, wire):
+    if isinstance(wire, list):
+        return isinstance(obj, bytes) and obj == wire[1].encode('latin-1')
+    return isinstance(obj, str) and obj == wire
+
+
 def entry_fn(module, entry):
     if entry == 'parse':
         return module.parse
@@ -252,6 +361,8 @@ def _outcome_of_call(fn, text, pos, full):
         return {'err': 'nontermination'}, None
     except UserAbort as e:
         return {'abort': [e.tag, e.pos]}, None
+    except UserAbortBase as e:
+        return {'abort': [e.tag, e.pos], 'base': True}, None
     except MemoryError:
         return {'err': 'MemoryError'}, None
     except RecursionError as e:
@@ -287,7 +398,7 @@ def run_op(env, ctx, op, path=()):
             except Exception as e:
                 out, raw = {'err': 'entry:' + type(e).__name__}, None
             else:
-                text = fresh_text(op['text'])
+                text = _text_object(env, task, op)
                 out, raw = _outcome_of_call(fn, text, op.get('pos', 0), op.get('full', True))
                 del text
         except mon.StepBudget:
@@ -334,16 +445,7 @@ def run_op(env, ctx, op, path=()):
             env.count('postprocess')
         return {'path': list(path), 'out': {'postprocessed': n}, 'fired': [], 'steps': 0, 'nested': []}
     if kind == 'gc':
-        sim = env.sim
-        cur = None
-        if sim is not None:
-            cur, sim.cur = sim.cur, None      # mute the step clock: finalisers are not client steps
-        try:
-            gc.collect()
-        finally:
-            if sim is not None:
-                sim.cur = cur
-        env.count('gc')
+        _collect(env)
         return {'path': list(path), 'out': {'gc': True}, 'fired': [], 'steps': 0, 'nested': []}
     if kind == 'forget':
         h = env.handles.get(op['mod'])
@@ -367,15 +469,25 @@ def _run_compile(env, ctx, op, path):
         task.deadline = task.local + int(op.get('budget', 4 * REF_BUDGET))
     nm = op.get('name')
     before = sys.modules.get(nm) if nm else None
+    # user code runs during a construction as well (Python sections are executed by Grammar()):
+    # the construction is a call scope of the user-code seam like a parse
+    fr = Frame(op.get('script'), path, 'compile')
+    if task is not None and not ctx.stack:
+        ctx.hard = task.local + HARD_CAP
+    ctx.stack.append(fr)
     try:
-        m = compile_desc(op['desc'], watch=env.watch_new)
+        m = compile_desc(op['desc'], watch=env.watch_new, include_source=bool(op.get('include_source')))
         out = {'compiled': sorted(n for n in vars(m) if not n.startswith('_'))}
     except mon.StepBudget:
         m, out = None, {'err': 'nontermination'}
+    except (UserAbort, UserAbortBase) as e:
+        m, out = None, {'abort': [e.tag, e.pos]}
+        env.count('ctor_fail')
     except Exception as e:
         m, out = None, {'err': type(e).__name__, 'msg': fpm.norm_text(str(e))[:200]}
         env.count('ctor_fail')
     finally:
+        ctx.stack.pop()
         if task is not None:
             task.deadline = saved_deadline
     if m is None:
@@ -389,7 +501,7 @@ def _run_compile(env, ctx, op, path):
     if m is not None and env.sim is not None:
         for c in generated_codes(m):
             env.sim.hot |= mon.hot_lines(c, vars(m))
-    return {'path': list(path), 'out': out, 'fired': [], 'nested': [],
+    return {'path': list(path), 'out': out, 'fired': fr.fired, 'nested': fr.nested,
             'steps': (task.local - start) if task is not None else 0}
 
 
@@ -660,7 +772,7 @@ def reference_outcome(chain, op, definitive=False, on_hook=None, exec_now=False)
     judged on its own).  definitive=True uses the real Grammar() for the fresh modules."""
     env = Env('ref', allow_nest=False)
     env.on_hook = on_hook
-    with isolated_registry():
+    with isolated_registry(), pristine_interpreter_settings():
         try:
             if len(chain) == 1 and chain[0].startswith('<builtin '):
                 mods = [fresh_builtin(chain[0][len('<builtin '):-1])]
@@ -726,5 +838,6 @@ def strip_nests(op):
 
 
 def op_key(op):
-    o = {k: v for k, v in strip_nests(op).items() if k != 'budget' and not k.startswith('_')}
+    o = {k: v for k, v in strip_nests(op).items()
+         if k not in ('budget', 'textobj', 'keep_text') and not k.startswith('_')}
     return json.dumps(o, sort_keys=True)
